@@ -51,6 +51,22 @@
 //   - After the provider is down a call made with an already-cancelled
 //     context may return nil, the documented shutdown error, or the context's
 //     error ("honors cancellation").
+//   - Re-entrant ("instrumented") exporters: the exporter of simple(exp) /
+//     batch(exp) may start and end a span through a tracer of the same
+//     provider inside its own Shutdown (both) or ExportSpans (batch only), a
+//     log exporter may emit a record through a logger of the same provider
+//     inside its Shutdown. Only what the statement says is asserted for
+//     them: every call returns (watchdog), no panic, the shutdown counts; the
+//     exporter's own spans / records are ignored by the membership and
+//     "nothing after Shutdown" clauses (on the unchanged tree the span ended
+//     inside Shutdown is dropped: the simple processor has already zeroed its
+//     exporter field and released the lock, the batch processor is stopped).
+//     NOT generated, because it blocks forever on the unchanged tree and the
+//     exporter is not a stock one: re-entrancy from ExportSpans behind the
+//     simple span processor (OnEnd holds exporterMu while it calls
+//     ExportSpans; the nested End blocks in OnEnd, and every later Shutdown /
+//     Unregister of that processor blocks too) and from Export behind the
+//     log SimpleProcessor (OnEmit holds s.mu while it calls Export).
 //   - Unregistering a processor of a non-comparable dynamic type that was
 //     never registered must not panic; REGISTERING such a processor is outside
 //     the quantifier ("every stock processor ... combination") and is not
